@@ -2,6 +2,10 @@
   CSpline.lean — spline/detail/cumulative_spline_impl.hpp: `cspline_eval_vs`, `cspline_eval_gs`
   (value, velocity, acceleration, jerk), and `monomial_derivative(s)` of polynomial/basis.hpp as
   used by them.  The Jacobian routines `cspline_eval_dg_dvs/dgs` live in CSplineJac.lean.
+
+  -- src: spline/detail/cumulative_spline_impl.hpp:9-75 (eval_vs), :155-168 (eval_gs);
+  --      polynomial/basis.hpp:26-66 (monomial_derivative(s))
+  Compared with the implementation by harness/cspline.cpp (tie T1, ops cs_eval_vs / cs_eval_gs).
 -/
 import SmoothModel.Lin
 import SmoothModel.Group
@@ -11,7 +15,8 @@ namespace CSpline
 variable {α : Type} [Scalar α]
 
 /-- `monomial_derivative<K>(u, p)`: entry `i` is `d^p/du^p u^i`, computed as the code does:
-    `P1` = running product `((1·u)·u)…` (i−p factors), `P2` = integer `i!/(i−p)!`. -/
+    `P1` = running product `((1·u)·u)…` (i−p factors), `P2` = integer `i!/(i−p)!`
+    (`P2 = p!`, then `P2 *= i; P2 /= i − p` for i = p+1.. in `size_t` arithmetic). -/
 def monoDerivP2 (p : Nat) : Nat → Nat
   | i => if i < p then 0 else (List.range (i - p)).foldl (fun acc t => acc * (p + 1 + t) / (t + 1))
            ((List.range p).foldl (fun acc t => acc * (t + 1)) 1)
@@ -25,6 +30,17 @@ def monomial_derivative (K : Nat) (u : α) (p : Nat) : Vec α (K + 1) :=
     if p > K then nat 0
     else if i.val < p then nat 0
     else monoDerivP1 u (i.val - p) * nat (monoDerivP2 p i.val))
+
+/-- Eigen's completely unrolled scalar reduction (`redux_novec_unroller<Start, Length>`): the
+    range is split in halves, `sum(s, n) = sum(s, n/2) + sum(s + n/2, n − n/2)`.  This is the
+    order in which `uvec.dot(Bcum.col(j))` adds its `K+1` products (a column of a row-major map
+    has no packet access, so the reduction is the scalar one). -/
+def treeSum (f : Nat → α) (s n : Nat) : α :=
+  if n = 0 then nat 0
+  else if n = 1 then f s
+  else treeSum f s (n / 2) + treeSum f (s + n / 2) (n - n / 2)
+termination_by n
+decreasing_by all_goals omega
 
 /-- loop state of `cspline_eval_vs` -/
 structure St (α : Type) (G : LieModel α) where
@@ -56,7 +72,15 @@ def step (Bj dBj d2Bj d3Bj : α) (vj : Vec α G.dof) (s : St α G) : St α G :=
 
 /-- `uvec.dot(Bcum.col(j))` -/
 def bdot {K : Nat} (U : Vec α (K + 1)) (Bcum : Mat α (K + 1) (K + 1)) (j : Fin (K + 1)) : α :=
-  vsum (K + 1) (fun r => U r * Bcum r j)
+  treeSum (fun r => if h : r < K + 1 then U ⟨r, h⟩ * Bcum ⟨r, h⟩ j else nat 0) 0 (K + 1)
+
+/-- the four basis values `(B̃ⱼ, B̃ⱼ', B̃ⱼ'', B̃ⱼ''')(u)` of column `j` -/
+def bvals {K : Nat} (Bcum : Mat α (K + 1) (K + 1)) (u : α) : Fin (K + 1) → α × α × α × α :=
+  let U0 := memoV (monomial_derivative K u 0)
+  let U1 := memoV (monomial_derivative K u 1)
+  let U2 := memoV (monomial_derivative K u 2)
+  let U3 := memoV (monomial_derivative K u 3)
+  fun jj => (bdot U0 Bcum jj, bdot U1 Bcum jj, bdot U2 Bcum jj, bdot U3 Bcum jj)
 
 /-- `cspline_eval_vs<K>(vs, Bcum, u, vel, acc, jer)` -/
 def eval_vs {K : Nat} (vs : Fin K → Vec α G.dof) (Bcum : Mat α (K + 1) (K + 1)) (u : α) : St α G :=
@@ -69,10 +93,13 @@ def eval_vs {K : Nat} (vs : Fin K → Vec α G.dof) (Bcum : Mat α (K + 1) (K + 
     let jj : Fin (K + 1) := ⟨j.val + 1, by omega⟩
     step G (bdot U0 Bcum jj) (bdot U1 Bcum jj) (bdot U2 Bcum jj) (bdot U3 Bcum jj) (vs j) s) init
 
+/-- the differences `v_i = rminus(g_i, g_{i−1})` of `cspline_eval_gs` / `cspline_eval_dg_dgs` -/
+def diffs {K : Nat} (gs : Fin (K + 1) → Vec α G.rep) : Fin K → Vec α G.dof := fun i =>
+  G.rminus (gs ⟨i.val + 1, by omega⟩) (gs ⟨i.val, by omega⟩)
+
 /-- `cspline_eval_gs<K>(gs, …)`: `v_i = rminus(g_i, g_{i−1})`, result `g_0 ∘ eval_vs` -/
 def eval_gs {K : Nat} (gs : Fin (K + 1) → Vec α G.rep) (Bcum : Mat α (K + 1) (K + 1)) (u : α) : St α G :=
-  let vs : Fin K → Vec α G.dof := fun i =>
-    G.rminus (gs ⟨i.val + 1, by omega⟩) (gs ⟨i.val, by omega⟩)
+  let vs : Fin K → Vec α G.dof := diffs G gs
   let vsm : Fin K → Vec α G.dof := fun i => memoV (vs i)
   let s := eval_vs G vsm Bcum u
   ⟨G.composition (gs ⟨0, by omega⟩) s.g, s.vel, s.acc, s.jer⟩
